@@ -419,7 +419,9 @@ func rawTimeElem(ns uint64) elem { // DTime over an arbitrary uint64 (not produc
 }
 
 func genElem(r *vx.Rng, allowBadCfg bool) elem {
-	switch r.Intn(19) {
+	switch r.Intn(23) {
+	case 19, 20, 21, 22:
+		return genObjElem(r)
 	case 0:
 		n := r.Intn(5)
 		data := rbytes(r, n)
